@@ -18,7 +18,7 @@ Clauses
               there, never read from the library), U_x = truncation terms of total degree >= 2 + p + s t of the
               majorant series at the window heads + rounding at the window tails, times sum |rule weights| * sum
               |Richardson weights|, t = min(2, k_est - 1); asserted for the short geometric user sequences (step kind
-              'geo': k_est 3..8, largest step 10^U(-2.5, -0.3) of the certified reach, dynamic range <= 1e4) and for
+              'geo': k_est 3..8, largest step 10^U(-2, -0.3) of the certified reach, dynamic range <= 1e4) and for
               the default configuration of the real-step methods
   consistency |diag(H) - Hessdiag|_j <= K_CONS (est_H_jj + est_diag_j) + floor, asserted when both
               configurations leave >= 2 estimates and reach <= rho_cert/4 (DESIGN C02 / F10)
@@ -55,7 +55,7 @@ C_X = {'hessian|central': 3.0, 'hessian|central2': 200.0, 'hessian|complex': 3.0
        'hessian|forward': 100.0, 'hessian|backward': 1e3,
        'hessdiag|central': 500.0, 'hessdiag|central2': 1e3, 'hessdiag|complex': 3.0, 'hessdiag|multicomplex': 3.0,
        'hessdiag|forward': 200.0, 'hessdiag|backward': 1e3}
-C_XR = 1e5
+C_XR = 3e4
 OVERFLOW = 1e150
 H_METHODS = ['central', 'central2', 'forward', 'backward', 'complex', 'multicomplex']
 REAL_STEP = ('central', 'central2', 'forward', 'backward')
@@ -92,6 +92,10 @@ KINDS = ('quadratic', 'ridge', 'ridge', 'ridge')
 F9_OPS = ('arctan', 'arcsin', 'arccos')
 
 
+def kinds_for(method):
+    return mv.GEO_KINDS_CSTEP if method in ('complex', 'multicomplex') else mv.GEO_KINDS
+
+
 @st.composite
 def c04_case(draw):
     base = draw(mv.mv_cases(n=st.integers(1, 6), m=1, kinds=KINDS, containers=('0d', '0d', 'len1')))
@@ -103,8 +107,8 @@ def c04_case(draw):
         wrap = dict(a=[round(draw(st.floats(-2, 2)), 3), round(draw(st.floats(0.1, 2)), 3)],
                     b=[round(draw(st.floats(-2, 2)), 3), round(draw(st.floats(-2, 2)), 3)])
     return dict(base, method=method, hd_method=hd_method, hd_order=hd_order, wrap=wrap,
-                step=draw(mv.step_specs(method, kinds=mv.GEO_KINDS)),
-                hd_step=draw(mv.step_specs(hd_method, kinds=mv.GEO_KINDS)),
+                step=draw(mv.step_specs(method, kinds=kinds_for(method))),
+                hd_step=draw(mv.step_specs(hd_method, kinds=kinds_for(hd_method))),
                 xform=draw(st.sampled_from(['list', 'array'])))
 
 
